@@ -203,7 +203,9 @@ fn run_line(st: &mut ReplState, line: &str) {
         st.rollback();
         OK
     } else {
-        let res = st.xs.compile(&line).and_then(|_| st.xs.run());
+        // eval starts running at the code of this line: a line that failed at
+        // run time must not be resumed (and fail again) by the following lines
+        let res = st.xs.eval(&line);
         if st.trial.is_some() {
             st.update_xstate();
         }
